@@ -25,6 +25,7 @@ import (
 type recTx struct {
 	Ops    []Op
 	Commit bool // false: the closure returns an error (rollback)
+	pruned map[kvmodel.Hash]bool
 }
 
 var errRollback = errors.New("closure error (harness rollback)")
@@ -70,6 +71,7 @@ func recordTx(t *rapid.T, e *env, g *opGen, nops, nblocks int, commit bool) recT
 		p.m.Rollback()
 	}
 	e.logf("tx#%d }", p.id)
+	rt.pruned = p.pruned
 	return rt
 }
 
